@@ -1126,6 +1126,9 @@ impl Locomotive {
                 // todo: put something in here for deep sleep that is the
                 // equivalent of engine_on in conventional loco
                 loco.solve_energy_consumption(pwr_out_req, dt, self.state.pwr_aux)?;
+                // report the auxiliary power the battery actually served: it is limited when the
+                // battery is depleted and regeneration is small
+                self.state.pwr_aux = loco.res.state.pwr_aux;
                 self.state.pwr_out =
                     loco.edrv.state.pwr_mech_prop_out - loco.edrv.state.pwr_mech_dyn_brake;
             }
